@@ -3,7 +3,7 @@ import LanceModel.C18.CallLemmas
 C18 lemmas, layer 8: the (key, row id) association across one call that updates, upserts or compacts.
 -/
 namespace LanceModel.C18
-open LanceModel.Table LanceModel.C17 List
+open LanceModel.Table LanceModel.C17Base List
 
 theorem pairs_eq (m : Manifest) : pairs m = krs (live m) := rfl
 
